@@ -1,4 +1,6 @@
-// Package vatomic: sync/atomic with a scheduling point before every operation.
+// Package vatomic: sync/atomic with a scheduling point before every load, store and CAS.
+// Add operations commute with each other and vflow never uses their results, so they are not
+// scheduling points (they remain real atomics: the race detector still sees them).
 package vatomic
 
 import (
@@ -7,14 +9,12 @@ import (
 	"github.com/EdgeCast/vflow/zzverif/sched"
 )
 
-func AddInt32(p *int32, d int32) int32 { sched.Point("atomic.AddInt32"); return atomic.AddInt32(p, d) }
-func AddInt64(p *int64, d int64) int64 { sched.Point("atomic.AddInt64"); return atomic.AddInt64(p, d) }
+func AddInt32(p *int32, d int32) int32 { return atomic.AddInt32(p, d) }
+func AddInt64(p *int64, d int64) int64 { return atomic.AddInt64(p, d) }
 func AddUint32(p *uint32, d uint32) uint32 {
-	sched.Point("atomic.AddUint32")
 	return atomic.AddUint32(p, d)
 }
 func AddUint64(p *uint64, d uint64) uint64 {
-	sched.Point("atomic.AddUint64")
 	return atomic.AddUint64(p, d)
 }
 func LoadInt32(p *int32) int32        { sched.Point("atomic.LoadInt32"); return atomic.LoadInt32(p) }
